@@ -83,10 +83,10 @@ def run(tier="quick", seed=0):
                     return bad, tgt
         return None, None
 
-    def record(table, res, tgt, kind):
+    def record(table, res, tgt, kind, **more):
         if res and len(viol) < 6:
             viol.append({"id": "%s_%d" % (kind, ev), "clause": "routing_changed", "why": res,
-                         "inputs": {"table": [[sorted(int(x) for x in e.route), e.key, e.mask, sorted((-1 if s is None else int(s)) for s in e.sources)] for e in table], "target": tgt}})
+                         "inputs": dict({"table": [[sorted(int(x) for x in e.route), e.key, e.mask, sorted((-1 if s is None else int(s)) for s in e.sources)] for e in table], "target": tgt}, **more)})
 
     # (a) the empty table and all orthogonal tables over 3 key bits with <= n entries
     nmax = 3 if tier == "quick" else 4
@@ -165,7 +165,50 @@ def run(tier="quick", seed=0):
         distinct.add(("r", tuple(order)))
         if i < 2:
             samples.append({"table": [[k, m] for k, m in order]})
+    # (e) sequences: the output of one minimisation appears inside the next table minimised in the same process
+    #     (as minimise_tables does for neighbouring chips carrying the same nets): orthogonal tables over 4 bits with one
+    #     route merge to few entries; the next table puts other entries, with another route, above those merged entries
+    B3, F3 = 4, 15
+    nseq = 0
+    for i in range(250 if tier == "quick" else 3000):
+        n1 = rng.randint(2, 4)
+        keys1 = rng.sample(range(F3 + 1), n1)
+        r1, r2 = rng.sample(routes, 2)
+        t1 = [RTE(r1, k, F3, {None}) for k in keys1]
+        try:
+            m1 = ordered_covering.minimise(list(t1), None)
+        except Exception as e:      # noqa
+            record(t1, "ordered_covering.minimise raised %s" % type(e).__name__, None, "seq")
+            continue
+        merged = [e for e in m1 if e.mask != F3]
+        if not merged:
+            continue
+        covered = lambda k: any(k & e.mask == e.key for e in merged)      # noqa: E731
+        free = [k for k in range(F3 + 1) if k not in keys1]
+        keys2 = rng.sample(free, min(len(free), rng.randint(2, 3)))
+        t2 = [RTE(r2, k, F3, {None}) for k in keys2] + list(merged)
+        nseq += 1
+        for name, fn in (("ordered_covering.minimise", lambda t: ordered_covering.minimise(t, None)),
+                         ("minimise_tables", lambda t: minimise_tables({(0, 0): t}, None).get((0, 0), []))):
+            ev += 1
+            try:
+                new = fn(list(t2))
+            except Exception as e:      # noqa
+                record(t2, "%s raised %s" % (name, type(e).__name__), None, "seq")
+                continue
+            bad = None
+            for key in range(F3 + 1):
+                e = lookup(t2, key)
+                if e is None:
+                    continue
+                nn = lookup(new, key)
+                if nn is None or nn.route != e.route:
+                    bad = "%s: after minimising %r in the same process, key %d of the next table is routed to %s, was %s" % (
+                        name, [(x.key, x.mask) for x in t1], key, None if nn is None else sorted(nn.route), sorted(e.route))
+                    break
+            record(t2, bad, None, "seq", minimised_before_in_the_same_process=[[sorted(int(x) for x in e.route), e.key, e.mask] for e in t1])
+        distinct.add(("s", tuple(keys1), tuple(keys2)))
     return {"name": "c04_tables", "evaluations": ev, "distinct_nontrivial": len(distinct),
-            "rule": "the empty table; every orthogonal table over 3 key bits with <= %d entries (x%d random route/source dressings and orders); overlapping tables with <= %d entries in generality order (and in arbitrary order for default-route removal); seeded random generality-ordered tables over 5 bits with 2..10 entries; targets None, 0, len-1, len, len+1; through remove_default_routes.minimise, ordered_covering.minimise, minimise_table, minimise_tables; oracle: first match + hardware default routing + sources listed" % (nmax, reps, nmax_o),
+            "rule": "the empty table; every orthogonal table over 3 key bits with <= %d entries (x%d random route/source dressings and orders); overlapping tables with <= %d entries in generality order (and in arbitrary order for default-route removal); seeded random generality-ordered tables over 5 bits with 2..10 entries; targets None, 0, len-1, len, len+1; through remove_default_routes.minimise, ordered_covering.minimise, minimise_table, minimise_tables; sequences (tables over 4 bits whose merged output entries reappear below other entries in the next table minimised in the same process); oracle: first match + hardware default routing + sources listed" % (nmax, reps, nmax_o),
             "bound": "3 key bits exhaustive up to the stated sizes; 5 bits sampled", "exhaustive": False, "label": "bounded",
             "samples": samples, "violations": viol, "seconds": round(time.time() - t0, 2)}
